@@ -830,8 +830,15 @@ def as_lists(a):
 def fit_case(ctx, kind, prog=None, spec=None, settings=None):
     rng = ctx.rng
     # several scipy calls need a problem that does not converge at once: at least 2 free parameters
+    if (settings or {}).get("fixed_case") and prog is None:
+        # one composition and likelihood on which a capped LBFGS fit keeps moving after its first update
+        prog = [{"op": "model", "h": "m1", "cls": "P3", "kw": {}}, {"op": "coll_kw", "h": "c1", "items": {"g": {"h": "m1"}}},
+                {"op": "root", "h": "c1"}]
     prog, model = gen_model(ctx, prog, min_free=3 if (settings or {}).get("ipu") and prog is None else 1)
-    analysis = make_analysis(rng, model, spec, hard=bool((settings or {}).get("ipu")))
+    if (settings or {}).get("fixed_case") and spec is None:
+        analysis = make_analysis(pyrandom.Random(5), model, None, hard=True)
+    else:
+        analysis = make_analysis(rng, model, spec, hard=bool((settings or {}).get("ipu")))
     settings = settings or {}
     if "pool_map_ordered" not in ctx.notes:
         probe_pool_map_ordered(ctx)
@@ -1007,6 +1014,11 @@ NAMED_FITS = [
     ("LBFGS", {"named": True}),
     ("BFGS", {"named": True, "history": True}),
     ("LBFGS", {"named": True, "ipu": 2, "maxiter": 8}),  # several intermediate updates into the output folder, then run again
+    ("LBFGS", {"named": True, "ipu": 2, "maxiter": 8, "fixed_case": True}),
+    ("LBFGS", {"named": True, "ipu": 1, "maxiter": 6}),
+    ("LBFGS", {"named": True, "ipu": 3, "maxiter": 12}),
+    ("BFGS", {"named": True, "ipu": 2, "maxiter": 8}),
+    ("LBFGS", {"named": True, "ipu": 2, "maxiter": 10}),
     ("PySwarmsGlobal", {"named": True}),
     ("DynestyDynamic", {"x1": True}),
     ("DynestyStatic", {"cores": 2}),
